@@ -256,14 +256,14 @@ def pickCommon (o : FromOpts) (finalCounts : List (Int × Int)) : M Int :=
       | some (m :: ms) => pure (listMin ((m :: ms).map (·.2)) m.2)
       | _ => throw (.valueError "No values or common value provided.")
 
-/-- the strategy switch: `values.size == 0 or len(counts) < 5`, else `(len(counts) / uncommon_ratio) < 100`
-(in exact arithmetic) -/
+/-- the strategy switch: `values.size == 0 or len(counts) < 5`, else
+`uncommon_ratio == 0 or (len(counts) / uncommon_ratio) < 100` (in exact arithmetic) -/
 def useWhere (size : Nat) (counts finalCounts : List (Int × Int)) (common : Int) : M Bool :=
   if size = 0 ∨ counts.length < 5 then pure true
   else
     let tot := (finalCounts.map (·.2)).foldl (· + ·) 0
     let uncommon := tot - (lookup finalCounts common).getD 0
-    if uncommon = 0 then throw .zeroDivision
+    if uncommon = 0 then pure true
     else pure (decide ((counts.length : Int) * size < 100 * uncommon))
 
 /-- `iindex.from_array(values, counts, common, mapping)` for 1-D and 2-D integer arrays.
@@ -283,17 +283,26 @@ def fromArray (a : Arr) (o : FromOpts) : M (IIndex × Bool) := do
 
 def copy (i : IIndex) : IIndex := i
 
+/-- `new_rowids[mask] = arange(new_length)` read at a masked position: the number of kept rows before it -/
+def rankIn (mask : List Bool) (r : Nat) : Nat := ((mask.take r).filter id).length
+
+/-- `new_rowids[rowids[mask[rowids]]]` -/
+def filterRows (mask : List Bool) (rows : Rows) : Rows :=
+  (rows.filter (fun r => mask.getD r false)).map (rankIn mask)
+
+/-- the receiver of `filtered` just before the final `shift_common()` -/
+def filteredPre (i : IIndex) (mask : List Bool) (newLength : Nat) : IIndex :=
+  let es := i.entries.foldl (fun es (e : Key × Rows) =>
+      let kept := filterRows mask e.2
+      if kept.isEmpty then es else dset es e.1 kept) []
+  { entries := es, common := i.common, shape := newLength :: i.shape.drop 1 }
+
 /-- `filtered(mask, new_length)` -/
 def filtered (i : IIndex) (mask : List Bool) (newLength : Nat) : M IIndex := do
   if (mask.filter id).length ≠ newLength then throw (.valueError "mask/new_length mismatch")
-  -- new_rowids[mask] = arange(new_length)
-  let newIds : List Nat := (mask.foldl (fun (acc : List Nat × Nat) b =>
-      if b then (acc.1 ++ [acc.2], acc.2 + 1) else (acc.1 ++ [0], acc.2)) ([], 0)).1
-  let es ← i.entries.foldlM (fun es (e : Key × Rows) => do
-      if e.2.any (fun r => r ≥ mask.length) then throw (.indexError "row id beyond mask")
-      let kept := e.2.filter (fun r => mask.getD r false)
-      if kept.isEmpty then pure es else pure (dset es e.1 (kept.map fun r => newIds.getD r 0))) []
-  shiftCommon { entries := es, common := i.common, shape := newLength :: i.shape.drop 1 } none
+  -- `mask[rowids]` raises for a row id beyond the mask
+  if i.entries.any (fun e => e.2.any (fun r => r ≥ mask.length)) then throw (.indexError "row id beyond mask")
+  shiftCommon (filteredPre i mask newLength) none
 
 inductive Order | all | one (k : Int) | list (ks : List Int)
 deriving Repr, DecidableEq
